@@ -45,11 +45,8 @@ let hex4_of (l : int list) : string =
   if l = [] then "-" else String.concat "" (List.map (Printf.sprintf "%04x") l)
 
 (* ---- UTF-8 ---- *)
-(* [fixed]: the decoder after notes/C18_fix_utf8_decode.diff (modes u8f, u8fblk; used to
-   validate the patch, not by the check of the current tree) *)
-let fixed = ref false
 let u8 (bytes : int list) : int * int =
-  let (code, rest) = (if !fixed then utf8_decode1_fixed else utf8_decode1) (bytes_n bytes) in
+  let (code, rest) = utf8_decode1 (bytes_n bytes) in
   (ni code, List.length bytes - List.length rest)
 
 let mode_u8 line =
@@ -176,8 +173,7 @@ let mode_w8assert line =
 
 let () =
   let f = match Sys.argv.(1) with
-    | "u8" -> mode_u8 | "u8blk" -> mode_u8blk
-    | "u8f" -> fixed := true; mode_u8 | "u8fblk" -> fixed := true; mode_u8blk | "idna" -> mode_idna | "idnablk" -> mode_idnablk
+    | "u8" -> mode_u8 | "u8blk" -> mode_u8blk | "idna" -> mode_idna | "idnablk" -> mode_idnablk
     | "w16" -> mode_w16 | "w8" -> mode_w8 | "w8assert" -> mode_w8assert
     | _ -> failwith "mode" in
   iter_lines (fun l -> print_string (f l); print_newline ())
